@@ -175,6 +175,13 @@ def can_harness_source(schema: Schema, structs: list) -> str:
                'std::memcpy(f.bus.data(), in, 4); std::memcpy(&f.sid, in + 4, 2); f.dlc = in[6]; std::memcpy(f.data.data(), in + 7, 8); '
                'fcp::can::Can s{std::make_shared<fcp::can::CanStaticSchema>(fcp::can::CanStaticSchema{})}; auto r = s.Decode(f); if (!r.has_value()) return -1; '
                'for (unsigned long i = 0; i < r->first.size(); i++) name_out[i] = r->first[i]; return (long)r->first.size(); }')
+    # history on one Can object: a frame that matches no binding is decoded first, then the frame under test
+    out.append('extern "C" long can_dec2(const unsigned char* first, const unsigned char* in, char* name_out) { fcp::can::frame_t g, f; '
+               'std::memcpy(g.bus.data(), first, 4); std::memcpy(&g.sid, first + 4, 2); g.dlc = first[6]; std::memcpy(g.data.data(), first + 7, 8); '
+               'std::memcpy(f.bus.data(), in, 4); std::memcpy(&f.sid, in + 4, 2); f.dlc = in[6]; std::memcpy(f.data.data(), in + 7, 8); '
+               'fcp::can::Can s{std::make_shared<fcp::can::CanStaticSchema>(fcp::can::CanStaticSchema{})}; '
+               'try { (void)s.Decode(g); } catch (...) {} auto r = s.Decode(f); if (!r.has_value()) return -1; '
+               'for (unsigned long i = 0; i < r->first.size(); i++) name_out[i] = r->first[i]; return (long)r->first.size(); }')
     return "\n".join(out) + "\n"
 
 
@@ -249,8 +256,10 @@ def dyn_harness_source(schema: Schema, dynamic: bool = True) -> str:
     top = schema.top
     b, d = gen(("struct", top))
     if dynamic:
+        # the same reflection is loaded twice into one object (a reload): the schema must behave as after one load
+        # (the CAN part, C18, loads once)
         out.append('extern "C" void* dyn_load(const char* bin, unsigned long n) { auto* s = new fcp::dynamic::DynamicSchema(); '
-                   's->LoadBinarySchema(std::string(bin, n)); return s; }')
+                   's->LoadBinarySchema(std::string(bin, n)); s->LoadBinarySchema(std::string(bin, n)); return s; }')
     copy = 'if (!e.has_value()) return -1; for (unsigned long i = 0; i < e->size(); i++) out[i] = (*e)[i]; return (long)e->size();'
     if dynamic:
         out.append(f'extern "C" long dyn_enc(void* sp, const unsigned char* args, unsigned char* out) {{ Rd r{{args}}; json j = {b}(r, true); '
